@@ -81,8 +81,11 @@ fn fresh(l: [u8; 4]) -> SteelVal {
 
 macro_rules! eq_harness {
     ($name:ident, $body:block) => {
+        eq_harness!($name, 10, $body);
+    };
+    ($name:ident, $unwind:expr, $body:block) => {
         #[kani::proof]
-        #[kani::unwind(10)]
+        #[kani::unwind($unwind)]
         #[kani::stub(std::rt::thread_cleanup, noop)]
         #[kani::stub(alloc::fmt::format, fmt_stub)]
         #[kani::stub(std::collections::HashSet::insert, set_insert_stub)]
@@ -169,7 +172,7 @@ fn pair_ptr(v: &SteelVal) -> usize {
     }
 }
 
-eq_harness!(eq_step_pair_with_visited_history, {
+eq_harness!(eq_step_pair_with_visited_history, 10, {
     let l = [any_leaf(), any_leaf()];
     let r = [any_leaf(), any_leaf()];
     let a = cons(leaf(l[0]), leaf(l[1]));
@@ -204,7 +207,7 @@ eq_harness!(eq_step_pair_with_visited_history, {
 
 // masked twin for the listed finding "visited marks are kept per side": with no earlier
 // encounter of either object the answer must be the structural one
-eq_harness!(eq_step_pair_with_visited_history__kf, {
+eq_harness!(eq_step_pair_with_visited_history__kf, 10, {
     let l = [any_leaf(), any_leaf()];
     let r = [any_leaf(), any_leaf()];
     let a = cons(leaf(l[0]), leaf(l[1]));
